@@ -36,6 +36,7 @@ type caseRec struct {
 	RestartAt int            `json:"restart_before_position,omitempty"`
 	Dups      map[int][]int  `json:"redeliveries,omitempty"`
 	Lanes     int            `json:"concurrent_deliverers,omitempty"`
+	Twice     map[int]bool   `json:"simultaneous_duplicates,omitempty"`
 	Diffs     []string       `json:"diffs,omitempty"`
 }
 
@@ -62,6 +63,8 @@ type job struct {
 	dups map[int][]int
 	// lanes > 1: the arrivals between two probe points are dealt to that many concurrent deliverers.
 	lanes int
+	// twice: positions whose blob two concurrent deliverers hand in at the same time (lanes > 1).
+	twice map[int]bool
 	// search: ask the search-handler queries at the last prefix (corpus mode only).
 	search bool
 	// light: time-ordering probes at the prefixes that get no full probe
@@ -195,7 +198,7 @@ func runJob(r *ev.Run, j job, root string, sampleMu *sync.Mutex, sampled *int) {
 	}
 	rec := func(prefix int, diffs []string) caseRec {
 		c := caseRec{CaseID: j.wid, Family: j.family, World: j.w.Describe(), Order: j.order, Prefix: prefix, Corpus: j.corpus, KV: j.kv, Prefill: j.prefill,
-			RestartAt: j.restartAt, Dups: j.dups, Lanes: j.lanes, Diffs: diffs}
+			RestartAt: j.restartAt, Dups: j.dups, Lanes: j.lanes, Twice: j.twice, Diffs: diffs}
 		for i, bb := range j.w.Blobs {
 			c.Blobs = append(c.Blobs, fmt.Sprintf("%d:%s:%s", i, j.w.Kind[bb.Ref], bb.Ref))
 		}
@@ -286,12 +289,22 @@ func runJob(r *ev.Run, j job, root string, sampleMu *sync.Mutex, sampled *int) {
 		} else {
 			var wg sync.WaitGroup
 			errs := make([]error, j.lanes)
+			laneWork := make([][]int, j.lanes)
+			for k, p := range batch {
+				laneWork[k%j.lanes] = append(laneWork[k%j.lanes], p)
+				if j.twice[p] {
+					// the same blob from a second deliverer, at (about) the same moment
+					g2 := (k + 1) % j.lanes
+					laneWork[g2] = append(laneWork[g2], p)
+					r.Count("simultaneous_duplicate_deliveries", 1)
+				}
+			}
 			for g := 0; g < j.lanes; g++ {
 				wg.Add(1)
 				go func(g int) {
 					defer wg.Done()
-					for k := g; k < len(batch); k += j.lanes {
-						if err := deliverPos(live, batch[k]); err != nil {
+					for _, p := range laneWork[g] {
+						if err := deliverPos(live, p); err != nil {
 							errs[g] = err
 							return
 						}
@@ -366,13 +379,6 @@ func runJob(r *ev.Run, j job, root string, sampleMu *sync.Mutex, sampled *int) {
 		// To compare like with like, the reloaded side gets a corpus only when the live side has one.
 		a := hw.Probe(live.Index, live.Corpus, opts)
 		b2 := hw.Probe(fresh.Index, fresh.Corpus, opts)
-		if os.Getenv("C06_DEBUG") != "" {
-			for i := range a {
-				if strings.HasPrefix(a[i].Q, "Corpus.EnumeratePermanodesCreated") {
-					fmt.Fprintf(os.Stderr, "DBG %s order=%v pos=%d kind=%s %s live=%s fresh=%s\n", j.wid, j.order, pos, j.w.Kind[j.w.Blobs[j.order[pos]].Ref], a[i].Q, a[i].A, b2[i].A)
-				}
-			}
-		}
 		r.Eval(len(a))
 		if nClaims > 0 {
 			r.Distinct(fmt.Sprintf("%s/%v/%d/%s/%s/%d/%d/%d", j.wid, j.order, pos, mode, j.kv, j.restartAt, len(j.dups), j.lanes))
@@ -486,6 +492,10 @@ func historyMode(j *job, m int, rng *rand.Rand) {
 		}
 		if rng.Intn(2) == 0 {
 			addDups()
+		}
+		j.twice = map[int]bool{}
+		for k := 0; k < 2; k++ {
+			j.twice[rng.Intn(n)] = true
 		}
 	case 4:
 		if n > 2 {
@@ -770,7 +780,7 @@ func (p *planner) directedWorlds() {
 				}
 				j := job{family: f.name, w: w, wid: wid, order: order, corpus: (o+i)%3 != 2, kv: kv, prefill: o%4 == 3, every: every, light: false, search: true}
 				if f.name == "content-time" && o%3 != 1 {
-					order = keysFirst(w, order) // otherwise most histories are "everything waits for the key"
+					j.order = keysFirst(w, order) // otherwise most histories are "everything waits for the key"
 				}
 				if f.name == "content-time" {
 					// the window between a claim and the file it points at is one arrival wide
